@@ -7,6 +7,9 @@ PROP = {
         "IdenaModel.Fork.adoption_eq_sync",
         "IdenaModel.Fork.reverted_txs_eq",
         "IdenaModel.Fork.adoption_stores_certs",
+        "IdenaModel.Fork.adoption_certs_eq_sync",
+        "IdenaModel.Fork.adoption_stores_no_empty_cert",
+        "IdenaModel.Fork.applyFork_nonNil_rule_stores_empty_cert",
         "IdenaModel.Fork.checkForkSize_total",
         "IdenaModel.Fork.processBlocks_no_panic",
         "IdenaModel.Fork.processBlocks_applicable",
